@@ -6,7 +6,7 @@ from props import c01
 
 LEVEL = "proof"
 THEOREMS = ["Kalign.weave", "Kalign.C10_subalignment_preserved", "Kalign.C10_column_mates_stay", "Kalign.C01_tree_integrity"]
-CHECKER = "lake build KalignModel.Props.C10 && lake env lean KalignModel/Audit/C10.lean"
+CHECKER = "lake build KalignModel.Props.PipelineFile && lake env lean KalignModel/Audit/C10.lean"
 
 
 def linear(seq, gaps):
@@ -58,12 +58,13 @@ def run(ctx):
     ctx.cov["_rule"] = ("real runs with the NODE_DONE hook: snapshot of member gap vectors when a node completes vs projection of the final "
                         "alignment onto the node's members; non-trivial = (input, node) pairs where the node has >= 2 members, is not the root and "
                         "the final projection needed >= 1 all-gap column to be dropped")
-    ok = C.lean_obligations(ctx, "C10", THEOREMS)
+    ok = C.lean_obligations(ctx, "C10", THEOREMS + C.pipefile_theorems(["recAln_"]), module="PipelineFile")
     kvh = C.build_harness("asan")
     cs = cases(ctx, 60 if ctx.quick else 500, not ctx.quick)
     sysrun.run_cases(kvh, cs)
     fails, model_lines, expected, where = [], [], [], []
-    diffs = []
+    # whole pipeline (recAln_subalignment_preserved is about the recAln of this function)
+    diffs = C.pipeline_correspondence(ctx, kvh, [3 * ctx.seed + 1000] if ctx.quick else [3 * ctx.seed + 1000 + 30 * k for k in range(4)])
     for c in cs:
         ctx.evaluations += 1
         if c.crashed or c.rc != 0:
@@ -103,8 +104,9 @@ def run(ctx):
     for why, c, extra in fails[:5]:
         ctx.violation(why, dict(kind="oracle", case=c.describe(), detail=extra, out=c.outtext))
     if diffs and not fails:
-        ctx.violation("model make_seq/update_gaps and the real merge disagree (%d); no input violating C10 found" % len(diffs),
-                      dict(kind="correspondence", broken="step correspondence make_seq", first=diffs[:5]), no_input=True)
+        ctx.violation("model and implementation disagree on %s (%d disagreements); no input violating C10 found" % (diffs[0]["op"].split()[0], len(diffs)),
+                      dict(kind="correspondence", broken="step / pipeline correspondence of " + diffs[0]["op"].split()[0],
+                           first=[dict(index=x["index"], op=x["op"][:3000], impl=str(x["impl"])[:1500], model=str(x["model"])[:1500], note=x["note"][-1500:]) for x in diffs[:5]]), no_input=True)
     if not ok and not fails and not diffs:
         ctx.violation("proof obligations of C10 no longer check", dict(kind="proof", broken=[o for o in ctx.obligations if not o["ok"]],
                                                                         log=getattr(ctx, "build_errors", "")), no_input=True)
